@@ -81,6 +81,7 @@ type TC struct {
 	Ctrl *transport_controller.Controller
 	Tpt  *SimTransport
 	Quic *pconn.Transport
+	Rec  *RecHandler
 }
 
 // AddNode builds a bus. Identities lists the parties whose peer controllers run on
@@ -315,8 +316,9 @@ var _ = fmt.Sprintf
 // RecHandler wraps the TransportHandler the controller hands to a transport constructor
 // and records every link the transport reports (C03 oracle: no hook needed).
 type RecHandler struct {
-	Inner transport.TransportHandler
-	OnEst func(l link.Link)
+	Inner  transport.TransportHandler
+	OnEst  func(l link.Link)
+	OnLost func(l link.Link)
 }
 
 func (r *RecHandler) HandleLinkEstablished(l link.Link) {
@@ -325,7 +327,12 @@ func (r *RecHandler) HandleLinkEstablished(l link.Link) {
 	}
 	r.Inner.HandleLinkEstablished(l)
 }
-func (r *RecHandler) HandleLinkLost(l link.Link) { r.Inner.HandleLinkLost(l) }
+func (r *RecHandler) HandleLinkLost(l link.Link) {
+	if r.OnLost != nil {
+		r.OnLost(l)
+	}
+	r.Inner.HandleLinkLost(l)
+}
 
 // AddQuicTransport starts a real transport controller whose transport is the real
 // pconn/QUIC transport over the given simulated PacketConn.
@@ -335,6 +342,7 @@ func (nd *Node) AddQuicTransport(name, idn string, pc net.PacketConn, static map
 	tc := &TC{Node: nd, Name: name, P: p}
 	ctor := func(ctx context.Context, le *logrus.Entry, pkey crypto.PrivKey, handler transport.TransportHandler) (transport.Transport, error) {
 		h := &RecHandler{Inner: handler, OnEst: onEst}
+		tc.Rec = h
 		opts := &pconn.Opts{Quic: &transport_quic.Opts{MaxIdleTimeoutDur: "60s", DisableKeepAlive: true, DisablePathMtuDiscovery: true}}
 		t, err := pconn.NewTransport(ctx, le, pkey, h, opts, 0, pc, func(a string) (net.Addr, error) { return pnet.Addr(a), nil }, static)
 		if err != nil {
